@@ -296,6 +296,18 @@ def zoo_portfolio_traces(chk, seeds, routes=('mono', 'split', 'io'), zoo_list=No
                             op = pf.setup_optim_problem(pr, tg)
                             res = op.optimize()
                             out = eao.io.extract_output(pf, op, res) if not isinstance(res, str) else None
+                        elif route == 'inner':
+                            # the Portfolio object wrapped by a structured / linked asset, optimised on its own AFTER the surrounding portfolio
+                            # was set up and optimised: being wrapped must leave nothing on it
+                            inner = [a.portfolio for a in pf.assets if hasattr(a, 'portfolio')]
+                            if not inner:
+                                continue
+                            op0 = pf.setup_optim_problem(pr, tg)
+                            op0.optimize()
+                            pf = inner[0]
+                            op = pf.setup_optim_problem(pr, tg)
+                            res = op.optimize()
+                            out = eao.io.extract_output(pf, op, res) if not isinstance(res, str) else None
                         elif route == 'robust':
                             # robust target over three price scenarios (the given prices, all prices halved, all prices raised by a half):
                             # whatever the objective, the reported value is minus cost times solution and the tables add up to it
